@@ -8,6 +8,15 @@ package sample
 
 //@ axiom forall a float32 :: !(a < a)
 //@ axiom forall a float32, b float32, c float32 :: a < b && b < c ==> a < c
+// `<=`, `==` and the literals 0 and 1 (needed for NewSampler's clamps; `<=` / `>=` are a separate
+// uninterpreted relation in govc): IEEE-754 facts, NaN included (every comparison with NaN is false)
+//@ axiom 0.0 < 1.0
+//@ axiom forall a float32, b float32 :: a <= b ==> !(b < a)
+//@ axiom forall a float32, b float32 :: a < b ==> a <= b
+//@ axiom forall a float32, b float32 :: a == b ==> !(a < b) && !(b < a)
+// fsame(a, b): a and b are the same point of the order (compare alike against every x). Used instead of
+// `==`, which is the uninterpreted feq (not reflexive: NaN != NaN)
+//@ spec func fsame(a float32, b float32) bool = forall x float32 :: ((a < x) <==> (b < x)) && ((x < a) <==> (x < b))
 
 // ---- trusted library contracts used by this package ----
 // sorting permutes: every element afterwards is one of the elements before
@@ -60,6 +69,8 @@ package sample
 
 //@ func (*Sampler).Sample
 //@   requires len(logits) <= 2147483647
+// the sampler was built by NewSampler (its proved postcondition): min-p is not above 1 (NaN allowed)
+//@   requires !(s.minP > 1.0)
 //@   ensures len(logits) == 0 ==> result.0 == -1 && result.1 != nil
 //@   ensures result.1 != nil ==> result.0 == -1
 //@   ensures result.1 == nil ==> 0 <= result.0 && result.0 < len(logits)
@@ -78,6 +89,7 @@ package sample
 
 //@ func (*Sampler).sample
 //@   requires len(tokens) >= 1
+//@   requires !(s.minP > 1.0)
 //@   requires forall k int :: 0 <= k && k < len(tokens) ==> 0 <= tokens[k].id && tokens[k].id < ghost_vocab
 //@   modifies tokens[all], *s.rng
 //@   ensures result.1 == nil ==> 0 <= result.0.id && result.0.id < ghost_vocab
@@ -124,8 +136,11 @@ package sample
 //@   ensures 1 <= len(result) && len(result) <= len(ts)
 //@   ensures forall k int :: 0 <= k && k < len(result) ==> &result[k] == &ts[k]
 
+// minP keeps ts[0] only if its threshold ts[0].value*p is not above ts[0].value: p must not exceed 1
+// (the caller's obligation; with p > 1 the result is empty and sample's tokens[len(tokens)-1] faults)
 //@ func minP
 //@   requires len(ts) >= 1
+//@   requires !(p > 1.0)
 //@   modifies nothing
 //@   ensures len(result) <= len(ts)
 //@   ensures forall k int :: 0 <= k && k < len(result) ==> &result[k] == &ts[k]
@@ -134,6 +149,24 @@ package sample
 //@   ensures seed != -1 ==> result.rng != nil
 //@   ensures seed == -1 ==> result.rng == nil
 //@   ensures result.topK == topK && result.grammar == grammar
+// parameter ranges the transforms rely on (a NaN parameter stays NaN: every comparison false).
+// min-p above 1 would put minP's threshold above the top probability: empty candidate list,
+// tokens[len(tokens)-1] in sample faults. These are the facts Sample / sample / minP require.
+//@   ensures !(result.minP < 0.0) && !(result.minP > 1.0)
+//@   ensures !(result.topP < 0.0) && !(result.topP > 1.0)
+//@   ensures !(result.temperature < 0.0)
+// the clamps are exact: a value inside the range is stored unchanged (the filters applied are the
+// ones asked for), a value outside becomes the nearest bound
+//@   ensures !(minP < 0.0) && !(minP >= 1.0) ==> fsame(result.minP, minP)
+//@   ensures minP < 0.0 ==> fsame(result.minP, 0.0)
+//@   ensures minP >= 1.0 ==> fsame(result.minP, 1.0)
+//@   ensures !(topP < 0.0) && !(topP >= 1.0) ==> fsame(result.topP, topP)
+//@   ensures topP < 0.0 ==> fsame(result.topP, 0.0)
+//@   ensures topP >= 1.0 ==> fsame(result.topP, 1.0)
+//@   ensures !(temperature < 0.0) ==> fsame(result.temperature, temperature)
+//@   ensures temperature < 0.0 ==> fsame(result.temperature, 0.0)
+// temperature zero selects the greedy path of sample (which tests s.temperature == 0)
+//@   ensures temperature == 0.0 ==> result.temperature == 0.0
 
 // heap.Interface methods: container/heap calls them with indices inside the heap
 //@ func (tokenHeap).Len
